@@ -262,7 +262,7 @@ def c20_history(rng, n):
         elif k < 9:
             toks.append(f"P{u}")
         else:
-            toks.append(rng.choice([f"F{u}", "U"]))
+            toks.append(rng.choice([f"F{u}", "U", f"M{u}", f"H{u}", f"M{u}"]))
     return toks
 
 
@@ -295,6 +295,10 @@ def c20_messages(toks, diag):
             msgs.append(lc.request(k, "$/verif/text", {"uri": uri}))
         elif kind == "F":
             msgs.append(lc.request(k, "textDocument/foldingRange", {"textDocument": {"uri": uri}}))
+        elif kind == "M":
+            msgs.append(lc.request(k, "textDocument/formatting", {"textDocument": {"uri": uri}, "options": {"tabSize": 4, "insertSpaces": True}}))
+        elif kind == "H":
+            msgs.append(lc.request(k, "textDocument/hover", {"textDocument": {"uri": uri}, "position": {"line": 0, "character": 6}}))
     msgs.append(lc.request(100001, "shutdown"))
     msgs.append(lc.notification("exit"))
     return msgs
@@ -353,7 +357,7 @@ def c20_cases(run):
                 unknown = "error" in m
                 got.append({"r": m.get("result"), "id": m["id"], "unknown": unknown})
                 ids.append(m["id"])
-        want_ids = [k for k, t in enumerate(toks) if t[0] in "PFU"]
+        want_ids = [k for k, t in enumerate(toks) if t[0] in "PFUMH"]
         if ids != want_ids:
             violations.append(("binary", "SPECNETTEXT " + line, f"response ids {ids[:40]}", f"{want_ids[:40]}", "responses missing, duplicated or out of request order"))
             continue
